@@ -1,6 +1,6 @@
 (* C09 — Minimize and Invert partition the sequence exactly. *)
 From Coq Require Import Sorting.Permutation.
-From GTS Require Import Base Arith Loc Region RegionProofs.
+From GTS Require Import Base Arith Loc Region RegionProofs CircProofs.
 Open Scope Z_scope.
 
 (* forward-oriented, strictly increasing, pairwise disjoint, non-abutting:
@@ -35,6 +35,26 @@ Theorem C09_invert_partition : forall r n, 0 <= n -> within n r ->
   forall x, 0 <= x < n -> countc (minimize r ++ inv) x = 1%nat.
 Proof. exact invert_linear_partition. Qed.
 Print Assumptions C09_invert_partition.
+
+(* the circular inversion: for every region that covers something, inside
+   [0,n), InvertCircular succeeds and the regions it returns cover, together
+   with the minimized input, every position of [0,n) exactly once (rcountL counts
+   the segments of nested regions); when the input touches neither end of the
+   sequence the gap across the origin is a single region reading the last gap
+   and then the first *)
+Theorem C09_invert_circular_partition : forall r n, 0 <= n -> within n r -> minimize r <> [] ->
+  exists out, invert_circular r n = Ok out /\
+    forall x, 0 <= x < n -> (countc (minimize r) x + rcountL out x = 1)%nat.
+Proof. exact invert_circular_partition. Qed.
+Print Assumptions C09_invert_circular_partition.
+
+Theorem C09_wrapped_region_reads_across_origin : forall a n b, a <= n -> 0 <= b ->
+  region_den (Regs [Seg a n; Seg 0 b]) = map (fun x => (x, false)) (zrange a n ++ zrange 0 b).
+Proof. exact wrapped_den. Qed.
+
+Example C09_circular_example :
+  invert_circular (Regs [Seg 5 3; Seg 6 8]) 10 = Ok [Regs [Seg 8 10; Seg 0 3]; Seg 5 6].
+Proof. vm_compute. reflexivity. Qed.
 
 Example C09_example :
   let r := Regs [Seg 7 5; Regs [Seg 1 3; Seg 2 4]; Seg 4 4] in
